@@ -1,0 +1,11 @@
+//go:build !verif
+
+package filesystem
+
+import (
+	"os"
+)
+
+// verifAtomicStep is the verification hook for atomic write steps. It is a
+// no-op unless the verif build tag is specified.
+func verifAtomicStep(_ string, _ string, _ *os.File) {}
